@@ -175,6 +175,11 @@ func NewApplication(
 	if err != nil {
 		return nil, fmt.Errorf("failed to create body inspector: %w", err)
 	}
+	// The model name decides routing: read as much of a body as the server accepts, not only
+	// the first megabyte (long conversations are larger than that).
+	if limit := cfg.Server.RequestLimits.MaxBodySize; limit > inspector.MaxBodySize {
+		bodyInspector.SetMaxBodySize(limit)
+	}
 	inspectorChain.AddInspector(bodyInspector)
 
 	// Create security adapters
